@@ -24,7 +24,7 @@ vars == <<tid, l, t, u, bad>>
 Has(r, f) == f \in DOMAIN r
 
 (* operations specified by a relation instead of a function *)
-Relational == {"optimize_width", "csv"}
+Relational == {"optimize_width", "csv", "untranslated"}
 
 Step(ev, cur) ==
     IF ev.kind = "row" THEN ApplyRow(cur, ev.op)
@@ -41,6 +41,7 @@ StepOK(ev, cur, next) ==
     CASE ev.op.op = "optimize_width" ->
             /\ OptimizeWidthOK(cur, ev.post)
             /\ (Has(ev.op, "again") => ev.post = cur)          \* idempotent
+      [] ev.op.op = "untranslated" -> TRUE      \* arguments not understood by the harvester: only the state invariants apply
       [] ev.op.op = "csv" -> Has(ev, "values") /\ ev.values = CsvRows(cur) /\ ev.post = cur
       [] OTHER -> ev.post = next
 
